@@ -222,6 +222,62 @@ def r2(ctx):
         o_, c_ = folding_guards(b, eb)
         if not (o_ and c_):
             yield VIOL("C12-R2", "from_request_parts/unguarded-refusal", "an InvalidBodyEncoding refusal is reachable outside the folding guard (option guard: %s, content-type guard: %s): a request that is not folded can be refused for its charset/body" % (o_, c_), where=b.span_of_block(eb))
+    # whether a form body is folded is decided by the option and the content type ALONE: every branch on the way to the
+    # form decoding whose other side can still reach success (i.e. "do not fold, carry on") reads nothing but
+    # options.url_encode_form and what get_content_type_and_charset made of the headers - not the method, the URI, the
+    # body or its length ("for every request": a PUT or GET with a form body is folded like a POST)
+    dec = b.calls(r"encoding::Encoding::decode$")
+    oks = [ob for ob, _, _ in result_aggs(b, "Ok")]
+    opts = param_by_name(b, "options")
+    if len(dec) == 1 and oks:
+        D = dec[0][0]
+        extra = []
+        ndec = 0
+        for (a, sx) in sorted(b.guards(D)):
+            alts = [x for x in b.succ(a) if x != sx]
+            if not any(ob in b._reachable_from(alt, avoid={D}) for alt in alts for ob in oks):
+                continue  # the other side never succeeds without decoding: a refusal, not a folding decision
+            ndec += 1
+            c = b.cond_of_switch(a)
+            if c is None:
+                extra.append((a, "a condition of unrecognised shape"))
+                continue
+            ops = []
+            if c["kind"] == "call":
+                ops = list(c["term"]["args"])
+            elif c["kind"] == "binop":
+                ops = [c["l"], c["r"]]
+            elif c["kind"] in ("place", "discr"):
+                ops = [{"copy": c["place"]}]
+            elif c["kind"] == "local":
+                ops = [{"copy": {"local": c["local"], "proj": []}}]
+            foreign = set()
+            for o in ops:
+                if op_const(o) is not None:
+                    continue
+                sl_ = b.slice_op(o)
+                for l_, fs in sl_.fieldreads:
+                    if l_ == parts and fs[:1] != ("headers",):
+                        foreign.add("parts." + ".".join(fs) if fs else "parts")
+                    if l_ == opts and fs[:1] != ("url_encode_form",):
+                        foreign.add("options." + ".".join(fs) if fs else "options")
+                if body in sl_.locals:
+                    foreign.add("body")
+                for p_ in sl_.params:
+                    if p_ not in (parts, opts, body):
+                        foreign.add("parameter _%d" % p_)
+                if parts in sl_.locals and not [1 for l_, fs in sl_.fieldreads if l_ == parts]:
+                    foreign.add("parts")
+            if foreign:
+                extra.append((a, ", ".join(sorted(foreign))))
+        for a, what in extra:
+            yield VIOL("C12-R2", "from_request_parts/extra-folding-condition", "whether the form body is folded also depends on %s: with the option set and a form content type the body must be folded for every request" % what, where=b.span_of_block(a))
+        if not extra and ndec >= 2:
+            yield PASS("C12-R2", "from_request_parts/folding-conditions", "%d fold / do-not-fold decisions before the form decoding, reading only options.url_encode_form and the parsed Content-Type" % ndec, [])
+        elif not extra:
+            yield MISSING("C12-R2", "from_request_parts/folding-conditions", "only %d fold / do-not-fold decisions found before the form decoding (>= 2 expected: option, content type)" % ndec)
+    else:
+        yield MISSING("C12-R2", "from_request_parts/folding-conditions", "form decoding call / Ok result not found")
     # parts fields written: only uri
     pw = {nm for nm, _ in writes if nm.startswith("parts")}
     if pw - {"parts.uri"}:
